@@ -1,5 +1,558 @@
 package main
 
-func cmdCheck(args []string) {}
+import (
+	"encoding/json"
+	"flag"
+	"fmt"
+	"go/types"
+	"os"
+	"path/filepath"
+	"sort"
+	"strings"
+	"time"
+)
 
-func (p *Prog) autoContract(fi *FuncInfo) *Contract { return p.autoContracts[fi.Key] }
+// autoContract synthesises the safety contract of the zero-annotation sweep (C10): every function
+// with a body that takes a packetDecoder parameter keeps the decoder's abstract state well-formed
+// and writes only the decoder, its receiver and objects it allocates itself.
+func (p *Prog) autoContract(fi *FuncInfo) *Contract {
+	if ct, ok := p.autoContracts[fi.Key]; ok {
+		return ct
+	}
+	p.autoContracts[fi.Key] = nil
+	if fi.Sig == nil || fi.Lit != nil {
+		return nil
+	}
+	if fi.Iface != nil {
+		// interface methods named decode taking a packetDecoder (decoder, versionedDecoder, ...)
+		if fi.Obj == nil {
+			return nil
+		}
+	}
+	pdNames := map[int]string{}
+	for i := 0; i < fi.Sig.Params().Len(); i++ {
+		pt := fi.Sig.Params().At(i).Type()
+		if namedOf(pt) == "packetDecoder" {
+			if _, isIface := pt.Underlying().(*types.Interface); isIface {
+				n := fi.Sig.Params().At(i).Name()
+				if n == "" || n == "_" {
+					n = fmt.Sprintf("pd%d", i)
+				}
+				pdNames[i] = n
+			}
+		}
+	}
+	if len(pdNames) == 0 {
+		return nil
+	}
+	if fi.Sig.Recv() != nil && namedOf(fi.Sig.Recv().Type()) == "realDecoder" {
+		return nil
+	}
+	ct := &Contract{Key: fi.Key, Loops: map[int]*LoopSpec{}, Props: []string{"C10"}, File: "(auto)"}
+	// parameter names positional
+	for i := 0; i < fi.Sig.Params().Len(); i++ {
+		n := fi.Sig.Params().At(i).Name()
+		if pn, ok := pdNames[i]; ok {
+			n = pn
+		} else if n == "" || n == "_" {
+			n = "_"
+		}
+		ct.Params = append(ct.Params, n)
+	}
+	mk := func(kind, label, src string) *Clause {
+		e, err := parseSpec(src)
+		if err != nil {
+			panic(err)
+		}
+		return &Clause{Kind: kind, Label: label, Src: src, Expr: e, File: "(auto)"}
+	}
+	var idxs []int
+	for i := range pdNames {
+		idxs = append(idxs, i)
+	}
+	sort.Ints(idxs)
+	var reqs, enss []string
+	for _, i := range idxs {
+		pdName := pdNames[i]
+		reqs = append(reqs, pdName+".remaining() >= 0")
+		enss = append(enss, "0 <= "+pdName+".remaining() && "+pdName+".remaining() <= old("+pdName+".remaining())")
+	}
+	ct.Requires = append(ct.Requires, mk("requires", "", strings.Join(reqs, " && ")))
+	ct.Ensures = append(ct.Ensures, mk("ensures", "state", strings.Join(enss, " && ")))
+	// frame: the syntactic mod-set of the body (sound by construction, field granularity) plus the
+	// abstract decoder state; no frame obligations are needed for it
+	ct.Auto = true
+	ct.AutoInv = ct.Ensures[0]
+	p.autoContracts[fi.Key] = ct
+	return ct
+}
+
+// sweepFunctions: the functions of the C10 sweep (auto or explicit contract, with a body).
+func (p *Prog) sweepFunctions() []*FuncInfo {
+	var out []*FuncInfo
+	for _, fi := range p.funcs {
+		if fi.Body == nil || fi.Lit != nil {
+			continue
+		}
+		if p.contracts[fi.Key] != nil {
+			continue
+		}
+		// request bodies are decoded only by the mock broker (tests); C10 is about data a client reads
+		if fn := p.fset.Position(fi.Body.Pos()).Filename; strings.HasSuffix(fn, "_request.go") {
+			continue
+		}
+		if ct := p.autoContract(fi); ct != nil {
+			out = append(out, fi)
+		}
+	}
+	sort.Slice(out, func(i, j int) bool { return out[i].Key < out[j].Key })
+	return out
+}
+
+
+// ---------------------------------------------------------------------------
+// property checks
+
+type knownFinding struct {
+	Property   string `json:"property"`
+	Obligation string `json:"obligation"`
+	What       string `json:"what"`
+	Status     string `json:"status"` // "known" suppresses the alarm for exactly this obligation; "fixed" suppresses nothing
+	Commit     string `json:"commit,omitempty"`
+	Input      string `json:"input,omitempty"`
+}
+
+type baselineFile struct {
+	Properties map[string][]string `json:"properties"` // property -> obligations discharged on the pinned tree
+	Functions  map[string][]string `json:"functions"`  // property -> functions under contract
+}
+
+const verifDir = "/verif"
+
+func loadBaseline() *baselineFile {
+	b := &baselineFile{Properties: map[string][]string{}, Functions: map[string][]string{}}
+	data, err := os.ReadFile(filepath.Join(verifDir, "baseline", "obligations.json"))
+	if err == nil {
+		json.Unmarshal(data, b)
+	}
+	return b
+}
+
+func loadKnown() []knownFinding {
+	var k struct {
+		Findings []knownFinding `json:"findings"`
+	}
+	data, err := os.ReadFile(filepath.Join(verifDir, "known_findings.json"))
+	if err == nil {
+		json.Unmarshal(data, &k)
+	}
+	return k.Findings
+}
+
+// propFunctions: functions whose contracts (explicit or auto) serve the property.
+func (p *Prog) propFunctions(prop string) []*FuncInfo {
+	var out []*FuncInfo
+	seen := map[string]bool{}
+	for key, ct := range p.contracts {
+		if ct.Trusted || ct.Pure && len(ct.Ensures) == 0 {
+			continue
+		}
+		serves := hasProp(ct.Props, prop)
+		if !serves {
+			for _, c := range ct.Ensures {
+				if hasProp(c.Props, prop) {
+					serves = true
+				}
+			}
+			for _, ls := range ct.Loops {
+				for _, c := range ls.Invs {
+					if hasProp(c.Props, prop) {
+						serves = true
+					}
+				}
+			}
+		}
+		if !serves {
+			continue
+		}
+		fi := p.funcs[key]
+		if fi == nil || fi.Body == nil {
+			continue
+		}
+		out = append(out, fi)
+		seen[key] = true
+	}
+	if prop == "C10" {
+		for _, fi := range p.sweepFunctions() {
+			if !seen[fi.Key] {
+				out = append(out, fi)
+			}
+		}
+	}
+	sort.Slice(out, func(i, j int) bool { return out[i].Key < out[j].Key })
+	return out
+}
+
+// missingFunctions: contracts tagged with the property whose function no longer exists.
+func (p *Prog) missingFunctions(prop string) []string {
+	var out []string
+	for key, ct := range p.contracts {
+		if !hasProp(ct.Props, prop) || strings.HasPrefix(key, "ext.") {
+			continue
+		}
+		if strings.Count(key, ".") >= 2 && !strings.HasPrefix(key, "mocks.") {
+			continue // callspec of a function-typed parameter
+		}
+		if p.funcs[key] == nil {
+			out = append(out, key)
+		}
+	}
+	sort.Strings(out)
+	return out
+}
+
+type obRecord struct {
+	Name    string  `json:"obligation"`
+	Kind    string  `json:"kind"`
+	Func    string  `json:"function"`
+	Descr   string  `json:"clause"`
+	Pos     string  `json:"pos,omitempty"`
+	Status  string  `json:"status"`
+	Solver  string  `json:"solver"`
+	TimeS   float64 `json:"time_s"`
+	SMTFile string  `json:"smt_file,omitempty"`
+	Claimed bool    `json:"claimed"`
+}
+
+type checkRun struct {
+	prop        string
+	tier        string
+	results     []*Result
+	funcs       []string
+	unsupported []string
+	assumptions map[string]bool
+	lowerErrs   []string
+	solverTime  float64
+}
+
+func (p *Prog) runProperty(prop, tier string, timeout int) *checkRun {
+	run := &checkRun{prop: prop, tier: tier, assumptions: map[string]bool{}}
+	fis := p.propFunctions(prop)
+	var queries []*Query
+	for _, fi := range fis {
+		ct := p.contractFor(fi)
+		f, err := p.lowerTop(fi, ct)
+		if err != nil {
+			run.lowerErrs = append(run.lowerErrs, err.Error())
+			continue
+		}
+		qs, err := generateVCs(p, f)
+		if err != nil {
+			run.lowerErrs = append(run.lowerErrs, err.Error())
+			continue
+		}
+		run.funcs = append(run.funcs, fi.Key)
+		for _, u := range f.Unsupported {
+			run.unsupported = append(run.unsupported, fi.Key+": "+u)
+		}
+		for a := range f.Assumptions {
+			run.assumptions[a] = true
+		}
+		for _, q := range qs {
+			if hasProp(q.Ob.Props, prop) {
+				queries = append(queries, q)
+			}
+		}
+	}
+	dir := filepath.Join(verifDir, "out", "smt", prop)
+	os.RemoveAll(dir)
+	run.results = solveAll(queries, dir, timeout, tier == "thorough", 16)
+	for _, r := range run.results {
+		run.solverTime += r.TimeS
+	}
+	return run
+}
+
+func discharged(r *Result) bool {
+	if r.Ob.Canary || r.Ob.Cover {
+		return r.Status == "sat"
+	}
+	return r.Status == "unsat"
+}
+
+func cmdBaseline(args []string) {
+	p := mustLoad()
+	b := loadBaseline()
+	props := args
+	if len(props) == 0 {
+		fmt.Fprintln(os.Stderr, "usage: govc baseline C10 C17 ...")
+		os.Exit(2)
+	}
+	for _, prop := range props {
+		run := p.runProperty(prop, "quick", 10)
+		var names []string
+		n := 0
+		for _, r := range run.results {
+			n++
+			if discharged(r) {
+				names = append(names, r.Ob.Name)
+			} else {
+				fmt.Printf("not in baseline: %s (%s) %s\n", r.Ob.Name, r.Status, r.Ob.Descr)
+			}
+		}
+		sort.Strings(names)
+		b.Properties[prop] = names
+		b.Functions[prop] = run.funcs
+		fmt.Printf("%s: %d/%d obligations discharged, %d functions\n", prop, len(names), n, len(run.funcs))
+		for _, e := range run.lowerErrs {
+			fmt.Println("  error:", e)
+		}
+	}
+	os.MkdirAll(filepath.Join(verifDir, "baseline"), 0o755)
+	data, _ := json.MarshalIndent(b, "", " ")
+	os.WriteFile(filepath.Join(verifDir, "baseline", "obligations.json"), data, 0o644)
+}
+
+func cmdCheck(args []string) {
+	fs := flag.NewFlagSet("check", flag.ExitOnError)
+	tier := fs.String("tier", "quick", "quick|thorough")
+	replay := fs.String("replay", "", "replay file")
+	var prop string
+	if len(args) > 0 && !strings.HasPrefix(args[0], "-") {
+		prop = args[0]
+		args = args[1:]
+	}
+	fs.Parse(args)
+	if prop == "" && fs.NArg() > 0 {
+		prop = fs.Arg(0)
+	}
+	if t := os.Getenv("VERIF_TIER"); t != "" && *tier == "quick" {
+		*tier = t
+	}
+	if *replay != "" {
+		os.Exit(cmdReplay(prop, *replay))
+	}
+	start := time.Now()
+	p := mustLoad()
+	timeout := 10
+	if *tier == "thorough" {
+		timeout = 60
+	}
+	base := loadBaseline()
+	claimed := map[string]bool{}
+	for _, n := range base.Properties[prop] {
+		claimed[n] = true
+	}
+	known := map[string]knownFinding{}
+	for _, k := range loadKnown() {
+		if k.Property == prop && k.Status == "known" {
+			known[k.Obligation] = k
+		}
+	}
+	// functions claimed in the baseline must still exist
+	var undecided []string
+	for _, fn := range base.Functions[prop] {
+		if p.funcs[fn] == nil || p.funcs[fn].Body == nil {
+			undecided = append(undecided, "function under contract no longer exists: "+fn)
+		}
+	}
+	for _, m := range p.missingFunctions(prop) {
+		undecided = append(undecided, "contract names a function that does not exist: "+m)
+	}
+	run := p.runProperty(prop, *tier, timeout)
+	for _, e := range run.lowerErrs {
+		undecided = append(undecided, "cannot form obligations: "+e)
+	}
+	regenerated := map[string]bool{}
+	nClaimed, nDischarged := 0, 0
+	var records []obRecord
+	var violations []*Result
+	var knownHit []string
+	var unclaimed []string
+	for _, r := range run.results {
+		regenerated[r.Ob.Name] = true
+		ok := discharged(r)
+		rec := obRecord{Name: r.Ob.Name, Kind: r.Ob.Kind, Func: r.Ob.Func, Descr: r.Ob.Descr, Pos: r.Ob.Pos,
+			Status: r.Status, Solver: r.Solver, TimeS: r.TimeS, SMTFile: r.File, Claimed: claimed[r.Ob.Name]}
+		records = append(records, rec)
+		if claimed[r.Ob.Name] {
+			nClaimed++
+			if ok {
+				nDischarged++
+			}
+		}
+		if ok {
+			continue
+		}
+		if k, isKnown := known[r.Ob.Name]; isKnown {
+			knownHit = append(knownHit, fmt.Sprintf("KNOWN-FINDING: property=%s %s: %s", prop, r.Ob.Name, k.What))
+			continue
+		}
+		if claimed[r.Ob.Name] {
+			violations = append(violations, r)
+			continue
+		}
+		// an obligation that was never discharged on the pinned tree (new code or not claimed):
+		// a violation only when the refutation replays on the real code
+		if r.Status == "sat" && !r.Ob.Canary {
+			if path, reproduced := tryReplay(p, prop, r); reproduced {
+				r.Output = "replayed: " + path
+				violations = append(violations, r)
+				continue
+			}
+		}
+		unclaimed = append(unclaimed, r.Ob.Name+" ("+r.Status+")")
+	}
+	// claimed contract clauses that were not regenerated although their function exists
+	for n := range claimed {
+		if regenerated[n] {
+			continue
+		}
+		parts := strings.SplitN(n, "/", 3)
+		if len(parts) >= 2 && (parts[1] == "ensures" || strings.HasPrefix(parts[1], "inv-")) {
+			undecided = append(undecided, "claimed obligation not regenerated: "+n)
+		}
+	}
+	for _, l := range knownHit {
+		fmt.Println(l)
+	}
+	exit := 0
+	os.MkdirAll(filepath.Join(verifDir, "replays", prop), 0o755)
+	for _, r := range violations {
+		path := writeViolation(p, prop, r)
+		suffix := ""
+		if !strings.HasPrefix(r.Output, "replayed: ") {
+			if rp, reproduced := tryReplay(p, prop, r); reproduced {
+				path = rp
+			} else {
+				suffix = " no-failing-input-found"
+			}
+		} else {
+			path = strings.TrimPrefix(r.Output, "replayed: ")
+		}
+		fmt.Printf("VIOLATION property=%s replay=%s obligation=%s status=%s%s\n", prop, path, r.Ob.Name, r.Status, suffix)
+		exit = 1
+	}
+	if exit == 0 && len(undecided) > 0 {
+		for _, u := range undecided {
+			fmt.Printf("UNDECIDED property=%s reason=%s\n", prop, u)
+		}
+		exit = 2
+	}
+	if exit == 0 && nClaimed == 0 {
+		fmt.Printf("UNDECIDED property=%s reason=no claimed obligation was generated\n", prop)
+		exit = 2
+	}
+	writeEvidence(p, run, prop, *tier, records, nClaimed, nDischarged, len(violations), knownHit, unclaimed, undecided, time.Since(start).Seconds())
+	fmt.Printf("%s %s: %d functions under contract, %d/%d claimed obligations discharged, %d further obligations generated (%d not discharged, not claimed), %d violations, %.1fs\n",
+		prop, *tier, len(run.funcs), nDischarged, nClaimed, len(records)-nClaimed, len(unclaimed), len(violations), time.Since(start).Seconds())
+	os.Exit(exit)
+}
+
+func writeViolation(p *Prog, prop string, r *Result) string {
+	dir := filepath.Join(verifDir, "replays", prop)
+	os.MkdirAll(dir, 0o755)
+	path := filepath.Join(dir, sanitizeFile(r.Ob.Name)+".json")
+	rec := map[string]interface{}{
+		"property": prop, "obligation": r.Ob.Name, "kind": r.Ob.Kind, "function": r.Ob.Func, "clause": r.Ob.Descr,
+		"pos": r.Ob.Pos, "status": r.Status, "solver": r.Solver, "smt_file": r.File,
+		"solver_output": r.Output, "model": truncate(r.Model, 20000),
+		"note": "obligation was discharged on the pinned tree (baseline) and is not discharged now",
+	}
+	data, _ := json.MarshalIndent(rec, "", " ")
+	os.WriteFile(path, data, 0o644)
+	return path
+}
+
+func truncate(s string, n int) string {
+	if len(s) > n {
+		return s[:n] + "..."
+	}
+	return s
+}
+
+var trustedBase = []string{
+	"govc: translation of the Go subset to verification conditions (weakest preconditions over the typed AST/CFG), SMT encoding",
+	"SMT solvers z3 4.8.12, z3 5.1.0, cvc5 1.0.3",
+	"go/types and go/packages (golang.org/x/tools v0.29.0)",
+}
+
+func writeEvidence(p *Prog, run *checkRun, prop, tier string, records []obRecord, nClaimed, nDischarged, nViol int, known, unclaimed, undecided []string, wall float64) {
+	var assumptions []string
+	for a := range run.assumptions {
+		assumptions = append(assumptions, a)
+	}
+	assumptions = append(assumptions,
+		"A-nil: nil dereference is not an obligation",
+		"A-slice-alias: distinct slice headers do not share backing arrays",
+		"A-conc: functions are verified as sequential code; goroutine interleavings are not modelled",
+		"A-arch: int is 64 bit; slices are shorter than 2^56 elements",
+		"A-iface: implementations supplied by the application satisfy exactly the interface contract and do not write the package's objects")
+	for key, ct := range p.contracts {
+		if ct.Trusted {
+			assumptions = append(assumptions, "trusted contract (not verified against a body): "+key)
+		}
+	}
+	sort.Strings(assumptions)
+	samples := records
+	if len(samples) > 40 {
+		// keep failures and a spread of the rest
+		var keep []obRecord
+		for _, r := range records {
+			if r.Status != "unsat" && !(r.Kind == "canary" && r.Status == "sat") {
+				keep = append(keep, r)
+			}
+		}
+		step := len(records) / 30
+		if step < 1 {
+			step = 1
+		}
+		for i := 0; i < len(records) && len(keep) < 60; i += step {
+			keep = append(keep, records[i])
+		}
+		samples = keep
+	}
+	byKind := map[string]int{}
+	bySolver := map[string]int{}
+	for _, r := range records {
+		byKind[r.Kind]++
+		if r.Solver != "" {
+			bySolver[r.Solver]++
+		}
+	}
+	seed := 0
+	fmt.Sscan(os.Getenv("VERIF_SEED"), &seed)
+	ev := map[string]interface{}{
+		"property_id": prop,
+		"tier":        tier,
+		"seed":        seed,
+		"level":       "proof",
+		"wall_s":      wall,
+		"violations":  nViol,
+		"assumptions": assumptions,
+		"coverage": map[string]interface{}{
+			"obligations":               nClaimed,
+			"discharged":                nDischarged,
+			"checker_cmd":               "/verif/bin/check " + prop + " --tier " + tier,
+			"trusted_base":              trustedBase,
+			"samples":                   samples,
+			"functions_under_contract":  run.funcs,
+			"obligations_generated":     len(records),
+			"obligations_by_kind":       byKind,
+			"discharged_by_solver":      bySolver,
+			"solver_time_s":             run.solverTime,
+			"not_claimed_not_discharged": unclaimed,
+			"known_findings_announced":  known,
+			"undecided":                 undecided,
+			"out_of_subset":             run.unsupported,
+			"undecided_clauses":         undecidedClauses[prop],
+			"explanation": "obligations = contract clauses and automatic safety conditions generated from /repo's current source for the functions under contract that were discharged on the pinned tree (baseline/obligations.json); discharged = how many of them the SMT solvers proved unsat on this run",
+		},
+	}
+	os.MkdirAll(filepath.Join(verifDir, "evidence"), 0o755)
+	data, _ := json.MarshalIndent(ev, "", " ")
+	os.WriteFile(filepath.Join(verifDir, "evidence", prop+".json"), data, 0o644)
+}
+
+// clauses of each property statement that the contracts do not decide (repeated in evidence)
+var undecidedClauses = map[string][]string{}
